@@ -31,6 +31,7 @@ structure TreeWF (st : Core) : Prop where
   child_gt : ∀ o c, c ∈ childrenOf st o → o < c ∧ c < st.owners.length
   child_parent : ∀ o c, c ∈ childrenOf st o → parentOf st c = some o
   nodup : ∀ o, (childrenOf st o).Nodup
+  parent_lt : ∀ o p, parentOf st o = some p → p < o
 
 /-- `st'` has the same owners as `st`, each with the same parent and the same or no children -/
 structure TreeShrink (st st' : Core) : Prop where
@@ -47,7 +48,7 @@ theorem TreeShrink.trans {a b c : Core} (h1 : TreeShrink a b) (h2 : TreeShrink b
   · exact Or.inr h
 
 theorem TreeWF.shrink {st st' : Core} (h : TreeWF st) (hs : TreeShrink st st') : TreeWF st' := by
-  refine ⟨fun o c hc => ?_, fun o c hc => ?_, fun o => ?_⟩
+  refine ⟨fun o c hc => ?_, fun o c hc => ?_, fun o => ?_, fun o p hp => ?_⟩
   · rcases hs.children o with h' | h'
     · rw [h'] at hc; rw [hs.len]; exact h.child_gt o c hc
     · rw [h'] at hc; cases hc
@@ -57,6 +58,7 @@ theorem TreeWF.shrink {st st' : Core} (h : TreeWF st) (hs : TreeShrink st st') :
   · rcases hs.children o with h' | h'
     · rw [h']; exact h.nodup o
     · rw [h']; exact List.nodup_nil
+  · rw [hs.parent] at hp; exact h.parent_lt o p hp
 
 /-- a transformer that rewrites one record, keeping `parent` and keeping or clearing `children` -/
 theorem TreeShrink.setOwner {st : Core} {o : Nat} {r r' : OwnerRec} (hr : st.owners[o]? = some r)
@@ -172,41 +174,44 @@ theorem getElem?_append_singleton {α} (l : List α) (a : α) (x : Nat) :
       have : 1 ≤ x - l.length := by omega
       simp [h, h2, List.getElem?_eq_none, this]
 
-theorem treeWF_newOwnerUnder {st : Core} (h : TreeWF st) (p : Option Nat) (paused : Bool)
-    (hp : ∀ x, p = some x → x < st.owners.length) : TreeWF (newOwnerUnder st p paused).1 := by
-  -- describe the new owner table pointwise
-  have hget : ∀ x, (newOwnerUnder st p paused).1.owners[x]? =
+/-- the owner table after `Owner::new` / `Owner::child`, pointwise -/
+theorem newOwnerUnder_get (st : Core) (p : Option Nat) (paused : Bool)
+    (hp : ∀ x, p = some x → x < st.owners.length) (x : Nat) :
+    (newOwnerUnder st p paused).1.owners[x]? =
       if x = st.owners.length then some (freshOwner p paused)
       else if p = some x then (st.owners[x]?).map fun r => { r with children := r.children ++ [st.owners.length] }
       else st.owners[x]? := by
-    intro x
-    unfold newOwnerUnder
-    simp only
-    cases p with
-    | none =>
-      simp only [getElem?_append_singleton]
-      by_cases h1 : x = st.owners.length
-      · simp [h1]
-      · by_cases h2 : x < st.owners.length
-        · simp [h1, h2]
-        · have : st.owners.length ≤ x := by omega
-          simp [h1, h2, List.getElem?_eq_none this]
-    | some q =>
-      have hq := hp q rfl
-      simp only [modOwner_get, getElem?_append_singleton]
-      by_cases h1 : x = st.owners.length
-      · have : ¬ x = q := by omega
-        simp [h1, this]
-        intro hq'; omega
-      · by_cases h2 : x < st.owners.length
-        · by_cases h3 : x = q
-          · subst h3; simp [h1, h2]
-          · have : ¬ q = x := fun h => h3 h.symm
-            simp [h1, h2, h3, this]
-        · have h4 : st.owners.length ≤ x := by omega
-          have : ¬ x = q := by omega
-          have : ¬ q = x := by omega
-          simp [h1, h2, List.getElem?_eq_none h4, *]
+  unfold newOwnerUnder
+  simp only
+  cases p with
+  | none =>
+    simp only [getElem?_append_singleton]
+    by_cases h1 : x = st.owners.length
+    · simp [h1]
+    · by_cases h2 : x < st.owners.length
+      · simp [h1, h2]
+      · have : st.owners.length ≤ x := by omega
+        simp [h1, h2, List.getElem?_eq_none this]
+  | some q =>
+    have hq := hp q rfl
+    simp only [modOwner_get, getElem?_append_singleton]
+    by_cases h1 : x = st.owners.length
+    · have : ¬ x = q := by omega
+      simp [h1, this]
+      intro hq'; omega
+    · by_cases h2 : x < st.owners.length
+      · by_cases h3 : x = q
+        · subst h3; simp [h1, h2]
+        · have : ¬ q = x := fun h => h3 h.symm
+          simp [h1, h2, h3, this]
+      · have h4 : st.owners.length ≤ x := by omega
+        have : ¬ x = q := by omega
+        have : ¬ q = x := by omega
+        simp [h1, h2, List.getElem?_eq_none h4, *]
+
+theorem treeWF_newOwnerUnder {st : Core} (h : TreeWF st) (p : Option Nat) (paused : Bool)
+    (hp : ∀ x, p = some x → x < st.owners.length) : TreeWF (newOwnerUnder st p paused).1 := by
+  have hget := newOwnerUnder_get st p paused hp
   have hlen : (newOwnerUnder st p paused).1.owners.length = st.owners.length + 1 := by
     unfold newOwnerUnder
     simp only
@@ -241,7 +246,13 @@ theorem treeWF_newOwnerUnder {st : Core} (h : TreeWF st) (p : Option Nat) (pause
       · simp only [h1, h2, if_true, if_false]
         cases hr : st.owners[x]? <;> simp
       · simp [h1, h2]
-  refine ⟨fun o c hc => ?_, fun o c hc => ?_, fun o => ?_⟩
+  refine ⟨fun o c hc => ?_, fun o c hc => ?_, fun o => ?_, fun o q hq => ?_⟩
+  rotate_left 3
+  · rw [hpar] at hq
+    by_cases h1 : o = st.owners.length
+    · simp only [h1, if_true] at hq
+      have := hp q hq; omega
+    · simp only [h1, if_false] at hq; exact h.parent_lt o q hq
   · rw [hch] at hc; rw [hlen]
     by_cases h2 : p = some o
     · simp only [h2, if_true, List.mem_append, List.mem_singleton] at hc
@@ -298,7 +309,7 @@ theorem TreeWF.prim {a b : Core} (hp : CorePrim a b) (h : TreeWF a) : TreeWF b :
   | logEv e he => exact h.shrink (TreeShrink.of_owners_eq rfl)
 
 theorem TreeWF.init : TreeWF {} := by
-  refine ⟨fun o c hc => ?_, fun o c hc => ?_, fun o => ?_⟩ <;> simp [childrenOf] at *
+  refine ⟨fun o c hc => ?_, fun o c hc => ?_, fun o => ?_, fun o p hp => ?_⟩ <;> simp [childrenOf, parentOf] at *
 
 theorem TreeWF.reach {a b : Core} (h : CoreReach a b) (ha : TreeWF a) : TreeWF b :=
   CoreReach.inv (fun _ _ hp => TreeWF.prim hp) h ha
